@@ -312,6 +312,29 @@ def fresh_path(suffix=".h5"):
     return p
 
 
+class OperationTimeout(Exception):
+    pass
+
+
+@contextlib.contextmanager
+def time_limit(seconds):
+    """a call into the package that does not come back (e.g. a walk over a tree that a changed operation has made cyclic) is
+    cut off and counts as a raised exception: a check must terminate whatever the code under test does"""
+    import signal, threading
+    if threading.current_thread() is not threading.main_thread() or not hasattr(signal, "setitimer"):
+        yield
+        return
+    def handler(signum, frame):
+        raise OperationTimeout(f"no answer within {seconds} s")
+    old = signal.signal(signal.SIGALRM, handler)
+    signal.setitimer(signal.ITIMER_REAL, seconds)
+    try:
+        yield
+    finally:
+        signal.setitimer(signal.ITIMER_REAL, 0)
+        signal.signal(signal.SIGALRM, old)
+
+
 def _give_history(p, kind):
     """before a path is handed out, the package has already SEEN it holding something else: an EMD 1.0 file it read
     (kind 1) or an HDF5 file that is not an EMD file and that it refused (kind 2).  Whatever the package remembers about a
